@@ -1,10 +1,12 @@
 (** Extraction roots of the RandomGen model (driver: extract/drv_random.ml).
     The roots of the reference semantics are included so that a private binary
     built from this file can also serve the oracle commands of drv_design.ml. *)
-From SP Require Design.Flat Design.Layout Random.Enum Extract.RootsDesign.
+From SP Require Design.Flat Design.Layout Random.Enum Random.Frag Random.FragSem Extract.RootsDesign.
 Definition roots :=
   (Extract.RootsDesign.roots,
    Random.Enum.make_enumerator, Random.Enum.all_keys, Random.Enum.decode_with,
    Random.Enum.are_constraints_violated, Random.Enum.possible_keys, Random.Enum.rounds_per_run,
    Random.Enum.rows_in_design_order, Random.Enum.sample_keys, Random.Enum.decode_key, Random.Enum.accepts,
-   Random.Enum.solution_count, Random.Enum.preamble_solution_count, Random.Enum.leftover_solution_count).
+   Random.Enum.solution_count, Random.Enum.preamble_solution_count, Random.Enum.leftover_solution_count,
+   Random.Frag.frag0, Random.FragSem.code_sem, Random.Frag.tseq_of_run, Random.FragSem.keys_of, Random.FragSem.check_sound,
+   Random.FragSem.check_inj, Random.FragSem.check_complete, Random.FragSem.check_count).
